@@ -11,11 +11,26 @@ type lateFrame struct {
 	frame []byte
 }
 
+// c05Histories: n exchanges per worker (0: the tier's default). Also run, shortened, by C02, whose
+// statement includes "a reply to that very request (matching transaction)".
+var c05N int
+
 func init() {
 	checks["C05"] = func(tier string, seed uint64, res *Result) error {
-		res.Rule = "histories of requests on real MBAP clients (tcp, tcp+tls) over scripted connections; per request the peer answers on time, late (during a later request), twice, never, or with foreign-protocol frames, in any order around the own reply; every reply carries the index of the request it answers; a returned value must carry the index of the call that returned it; each exchange is also compared with the Lean model; distinct = (delivery class of own reply, number/kind of foreign frames present, outcome)"
+		return c05Histories(tier, seed, res)
+	}
+}
+
+func c05Histories(tier string, seed uint64, res *Result) error {
+	{
+		if c05N == 0 {
+			res.Rule = "histories of requests on real MBAP clients (tcp, tcp+tls) over scripted connections; per request the peer answers on time, late (during a later request), twice, never, or with foreign-protocol frames, in any order around the own reply; every reply carries the index of the request it answers; a returned value must carry the index of the call that returned it; each exchange is also compared with the Lean model; distinct = (delivery class of own reply, number/kind of foreign frames present, outcome)"
+		}
 		workers := 16
 		n := scale(tier, 400, 6000)
+		if c05N > 0 {
+			n = c05N
+		}
 		var mu sync.Mutex
 		var pairs [][2]string
 		var wg sync.WaitGroup
